@@ -117,6 +117,29 @@ def run(tier, seed):
                         else:
                             rec.fail(f"form:{cn}:{k}:{t}|{n}", f"{cn}({t!r}, <document given as {k}>) -> {got!r}, on the parsed value -> {base!r}",
                                      f"import io, json, jsonpath\nenv = jsonpath.JSONPathEnvironment()\nd = {d!r}\nprint(env.findall({t!r}, d), [m.obj for m in env.finditer({t!r}, io.BytesIO(json.dumps(d).encode()))]); sys.exit(2)")
+    for t in ("$..*", "$.users[*]", "$[*]", "$.users[?@.score > $.limit].name", "$.users[*].tags | $.users[0]"):
+        for d in ({"limit": 1, "users": [{"name": "a", "score": 1, "tags": []}, {"name": "b", "score": 2, "tags": [1]}]}, [[1, 2], {"k": [3]}, "s"]):
+            text = json.dumps(d)
+            try:
+                want = jsonpath.findall(t, json.loads(text))
+                first = jsonpath.findall(t, text)
+                for v in first:
+                    if isinstance(v, list):
+                        v.append("edited")
+                    elif isinstance(v, dict):
+                        v["edited"] = True
+                        for k in [k for k in v if k in ("score", "limit")]:
+                            v[k] = 99
+                second = {"findall": jsonpath.findall(t, text), "finditer": [m.obj for m in jsonpath.finditer(t, text)], "query": list(jsonpath.query(t, text).values()),
+                          "StringIO": jsonpath.findall(t, io.StringIO(text))}
+            except Exception as e:  # noqa: BLE001
+                rec.fail(f"text-again:{t}", f"{t!r} on the JSON text {text!r}: {type(e).__name__}: {e}", "sys.exit(2)")
+                continue
+            bad = [k for k, v in second.items() if repr(v) != repr(want)]
+            if bad:
+                rec.fail(f"text-again:{t}|{text}", f"{t!r} on the JSON text {text!r} after the caller edited the values an earlier call returned: {bad} -> { {k: second[k] for k in bad} !r}; the parsed value gives {want!r}", "sys.exit(2)")
+            else:
+                rec.ok(("text-again", t, text))
     for t in U.COMPOUND_QUERIES:
         for d in U.COMPOUND_DOCS + docs[:6]:
             try:
